@@ -1320,8 +1320,10 @@ class Scene(Geometry3D):
                 new_geom = np.dot(scale_3D, original)
 
                 if result.geometry[geometry].vertices.shape[1] == 2:
-                    # if our scene is 2D only scale in 2D
+                    # if our scene is 2D only scale in 2D: the placement
+                    # of the node is not baked into the planar geometry
                     result.geometry[geometry].apply_transform(scale_2D)
+                    new_geom = scale_3D
                 else:
                     # otherwise apply the full transform
                     result.geometry[geometry].apply_transform(new_geom)
